@@ -162,6 +162,7 @@ def run(ctx):
 
     # ------------------------------------------------------------------ R04.3
     r = ctx.rule("R04.3", "names compare ASCII case-insensitively on both sides: attribute names given to the matcher are lower-case constants or lower-cased literals and the document side is lower-cased in find; element names compare through LocalName equality", "E-MIR + E-AST", floor=5)
+    sm.clause_eq_case_insensitive(r, mir)
     am = {f.name: f for f in idx.fns if f.owner == "AttributeMatcher"}
     find = am.get("find")
     if find is None:
@@ -226,6 +227,7 @@ def run(ctx):
     r.inst("push_item|only-inserter", sample={"LimitedVec::push callers": pushers, "open_name_counts inserters": ins})
     if pushers != ["Stack::push_item"] or ins != ["Stack::push_item"]:
         r.violate("push_item|only-inserter", f"stack items are pushed from {pushers} and open_name_counts is inserted into from {ins}; push_item must be the only place (the three structures must stay in step)", None)
+    sm.clause_open_name_counts_shrinks(r, mir)
     callers = sorted(set(f.key.split("::{closure")[0] for f, bi, t in mir.callers_of(r"Stack::pop_up_to$") if not mir.is_test_fn(f)))
     r.inst("pop_up_to|callers", sample={"callers": callers})
     if callers != ["SelectorMatchingVm::exec_for_end_tag"]:
